@@ -242,3 +242,24 @@ Theorem C13_stream_reads_first_refuted :
   stream_sees ReaderFixed true [] = Some (NDir stream_root_meta [] [], []).
 Proof. exact stream_reads_first_refuted_proof. Qed.
 Print Assumptions C13_stream_reads_first_refuted.
+
+(* Tar() as a whole over a tar stream: [stream_tar lv add_root members] is TarOk t when Tar returns
+   nil having encoded t, TarError otherwise; lv = LeftoverRefused is the check after the root entry
+   (commit 4e00255: one more Next(); anything but io.EOF is an error).  For ANY stream -- grouped by
+   directory or not, with or without a root member: if Tar() returns nil, the files the reader
+   delivered are exactly the nodes of the archive, in order (nothing dropped). *)
+Theorem C13_stream_success_complete : forall add_root members t,
+  stream_tar LeftoverRefused add_root members = TarOk t ->
+  event_heads (reader_events ReaderFixed add_root members) = heads t.
+Proof. exact stream_tar_complete_proof. Qed.
+Print Assumptions C13_stream_success_complete.
+
+(* FIXED by 4e00255 (tarstream/members-after-root-dropped): without the check a stream "a", "d", "d/x"
+   and no AddRoot gives success with an archive of "a" alone; with the check it is an error; with
+   AddRoot it is the root holding all three. *)
+Theorem C13_stream_leftover_refuted :
+  stream_tar LeftoverIgnored false (members_of ex_stream_members) = TarOk (NFile ex_meta [] [1]%N) /\
+  stream_tar LeftoverRefused false (members_of ex_stream_members) = TarError /\
+  stream_tar LeftoverRefused true (members_of ex_stream_members) = TarOk (NDir stream_root_meta [] ex_stream_members).
+Proof. exact stream_leftover_refuted_proof. Qed.
+Print Assumptions C13_stream_leftover_refuted.
